@@ -94,6 +94,14 @@ pub fn authdata_built(arg: &str) -> (bool, String) {
     let fb = u8::from_str_radix(p[0], 16).unwrap();
     let Some(flags) = Flags::from_bits(fb) else { return (false, "not a Flags value".into()) };
     let (with_a, with_e) = (p[1] == "1" && p[3].contains('a'), p[2] == "1" && p[3].contains('e'));
+    // rpIdHash: the SHA-256 of the RP ID as it was given (computed here with sha2 directly)
+    for rp in ["example.com", "Example.COM", "b\u{fc}cher.example", ""] {
+        use sha2::Digest;
+        let want = sha2::Sha256::digest(rp.as_bytes());
+        if AuthenticatorData::new(rp, None).rp_id_hash() != &want[..] {
+            return (true, format!("rpIdHash of a value built for RP ID {rp:?} is not SHA-256 of that RP ID"));
+        }
+    }
     let mut d = AuthenticatorData::new("example.com", None);
     for step in p[3].chars() {
         d = match step {
